@@ -3,6 +3,7 @@ import pathlib
 import re
 import shutil
 import stat
+import sys
 from typing import List
 
 from conductor.context import Context
@@ -85,11 +86,29 @@ def main(args):
         curr_path = stack.pop()
         to_delete: List[pathlib.Path] = []
 
-        for inner in curr_path.iterdir():
-            if inner.is_symlink() or not inner.is_dir():
-                # Never follow symbolic links: they may lead outside the output
-                # directory, or to a recorded version under a different path.
-                continue
+        try:
+            # (`DirEntry.is_dir()` does not need access to the entry itself.)
+            with os.scandir(curr_path) as entries:
+                inner_dirs = [
+                    pathlib.Path(entry.path)
+                    for entry in entries
+                    # Never follow symbolic links: they may lead outside the
+                    # output directory, or to a recorded version under a
+                    # different path.
+                    if entry.is_dir(follow_symlinks=False)
+                ]
+        except OSError as ex:
+            # A directory that Conductor did not create and cannot look into
+            # (e.g., one its owner has closed) does not stop the collection.
+            print(
+                "Warning: Skipping '{}': {}".format(
+                    _display_path(curr_path, cwd), ex.strerror
+                ),
+                file=sys.stderr,
+            )
+            continue
+
+        for inner in inner_dirs:
             exp_match = _EXPERIMENT_TASK_REGEX.match(inner.name)
             if exp_match is None:
                 if _REGULAR_TASK_REGEX.match(inner.name) is None:
